@@ -21,9 +21,11 @@ INF = float("inf")
 # ---------------------------------------------------------------------------------------
 # generator
 # ---------------------------------------------------------------------------------------
-def g_time_dist(r, scale=1.0, allow_seq=True):
+def g_time_dist(r, scale=1.0, allow_seq=True, depth=0):
     k = r.choice(["Exponential", "Exponential", "Uniform", "Deterministic", "Triangular", "Gamma", "Lognormal", "Weibull",
-                  "Normal", "Erlang", "HyperExponential", "Coxian", "Pmf", "Empirical", "Sequential", "Sum", "Mixture"])
+                  "Normal", "Erlang", "HyperExponential", "Coxian", "Pmf", "Empirical", "Sequential", "Sequential", "Sum", "Mixture"])
+    if depth and k in ("Sum", "Mixture"):
+        k = "Sequential"
     if k == "Sequential" and not allow_seq:
         k = "Uniform"
     if k == "Exponential":
@@ -58,8 +60,8 @@ def g_time_dist(r, scale=1.0, allow_seq=True):
     if k == "Sequential":
         return [k, [round(r.uniform(0.1, 2) * scale, 2) for _ in range(r.randint(1, 5))]]
     if k == "Sum":
-        return [k, g_time_dist(r, scale / 2, False), g_time_dist(r, scale / 2, False)]
-    return ["Mixture", [g_time_dist(r, scale, False), g_time_dist(r, scale, False)], [0.5, 0.5]]
+        return [k, g_time_dist(r, scale / 2, allow_seq, 1), g_time_dist(r, scale / 2, allow_seq, 1)]
+    return ["Mixture", [g_time_dist(r, scale, allow_seq, 1), g_time_dist(r, scale, allow_seq, 1)], [0.5, 0.5]]
 
 
 def g_det_dist(r, scale=1.0):
